@@ -140,7 +140,7 @@ theorem matches_spec (s : State) (h : ModeInv s) (c : Call) :
   by_cases ho : s.opened = true
   · have hc := core_of_inv s h ho
     clear h
-    cases hc <;> mode_all (first | (mode_simp; done) | (mode_simp; grind) | (mode_simp; (repeat' split) <;> simp_all))
+    cases hc <;> mode_all (first | (mode_simp; done) | (mode_simp; grind) | (mode_simp; (repeat' split) <;> simp_all <;> omega))
   · have : s.opened = false := by simpa using ho
     have hs := h.cl this
     subst hs
@@ -263,7 +263,7 @@ theorem matches_spec_multi (s : State) (h : ModeInv s) (c : Call) (hq : flushQui
   by_cases ho : s.opened = true
   · have hc := core_of_inv s h ho
     clear h
-    cases hc <;> mode_all (first | (revert hq; simp only [flushQuirk]; mode_simp; done) | (revert hq; simp only [flushQuirk]; mode_simp; grind) | (revert hq; simp only [flushQuirk]; mode_simp; (repeat' split) <;> simp_all))
+    cases hc <;> mode_all (first | (revert hq; simp only [flushQuirk]; mode_simp; done) | (revert hq; simp only [flushQuirk]; mode_simp; grind) | (revert hq; simp only [flushQuirk]; mode_simp; (repeat' split) <;> simp_all <;> omega))
   · have : s.opened = false := by simpa using ho
     have hs := h.cl this
     subst hs
@@ -293,6 +293,10 @@ theorem spec_mode_changes_only_by (a : AState) (c : Call) (hm : isModeCall c = f
   all_goals (split <;> simp [effect])
   all_goals try (split <;> simp)
 
+/-- the size the implementation compares in the data-mode guard of put_att / copy_att
+    (`x_len_NC_attrV`) is the format's "values padded to 4 bytes", for every type class and count -/
+theorem attr_space_is_padded_size (t : XT) (n : Nat) : xlen t n = headerBytes t n := xlen_eq_headerBytes t n
+
 /-! ## 4. non-vacuity: concrete instances meeting the hypotheses -/
 
 example : ModeInv (created true) := inv_created true
@@ -317,6 +321,22 @@ example : (step Cfg.pinned (created true) .abort).del = true := by decide
 example : (step Cfg.pinned (run Cfg.pinned (created true) [.post .iput .recv false false]) .close).err = .epending := by
   decide
 
+-- "needs more header space" in data mode (collective, writable): wider type with the same count is refused,
+-- wider type with fewer elements that still needs more bytes is refused, a narrower type with more elements
+-- in the same space is accepted, 3 -> 4 chars stays inside the padded word and is accepted, 4 -> 5 is not
+example : (step Cfg.repaired (openedFile true true) (.putAtt .global false false false false true .x4 1 .x8 1)).err
+            = .enotindefine := by decide
+example : (step Cfg.repaired (openedFile true true) (.putAtt .global false false false false true .x4 3 .x8 2)).err
+            = .enotindefine := by decide
+example : (step Cfg.repaired (openedFile true true) (.putAtt .global false false false false true .x4 2 .x2 3)).err
+            = .noerr := by decide
+example : (step Cfg.repaired (openedFile true true) (.putAtt .global false false false false true .x1 3 .x1 4)).err
+            = .noerr := by decide
+example : (step Cfg.repaired (openedFile true true) (.putAtt .global false false false false true .x1 4 .x1 5)).err
+            = .enotindefine := by decide
+example : (step Cfg.repaired (openedFile true true) (.renameAtt .global false true false 2 3)).err = .enotindefine := by decide
+example : (step Cfg.repaired (openedFile true true) (.renameAtt .global false true false 3 2)).err = .noerr := by decide
+
 def obligations : List String := [
   "inv_step", "inv_all_histories", "flags_agree", "flags_agree_bits_counterexample", "flags_agree_bits_partial",
   "one_mode", "one_mode_dispatcher_counterexample", "driver_asserts_hold",
@@ -324,6 +344,6 @@ def obligations : List String := [
   "matches_spec_pinned_counterexample_ub", "pinned_eq_repaired", "matches_spec_partial",
   "refines_all_histories", "rejected_is_noop", "error_is_noop", "error_is_noop_multi",
   "matches_spec_multi", "mode_changes_only_by",
-  "spec_mode_changes_only_by"
+  "spec_mode_changes_only_by", "attr_space_is_padded_size"
 ]
 end PnVerif.Props.C14
